@@ -3,6 +3,7 @@ use serde_json::Value;
 
 pub type AreaFn = fn(&Value) -> Vec<Value>;
 
+mod local;
 mod ows;
 mod time;
 
@@ -10,6 +11,7 @@ pub fn lookup(name: &str) -> Option<AreaFn> {
     match name {
         "time" => Some(time::run),
         "ows" => Some(ows::run),
+        "local" => Some(local::run),
         _ => None,
     }
 }
